@@ -63,7 +63,7 @@ CHECK = {
     "gen": [{"pkg": "extract_c17", "out": "lean/ClusterVerif/Gen/C17.lean"}],
     "extra": [_rerun_unstable],
     "search_seeds": {"quick": 1, "thorough": 2},
-    "lean_sources": ["ClusterVerif/Model/C17.lean", "ClusterVerif/Spec/C17.lean", "ClusterVerif/Lemmas/C17.lean",
+    "lean_sources": ["ClusterVerif/Model/C17.lean", "ClusterVerif/Spec/C17.lean", "ClusterVerif/Lemmas/C17.lean", "ClusterVerif/Lemmas/C17Step.lean",
                      "ClusterVerif/Gen/C17.lean", "ClusterVerif/Model/Pin.lean"],
     "rule": "consensus suite: scripts of 4-14 steps over 1-4 real raft.Consensus peers on loopback (bootstrap of 1-3 peers; pin/unpin, "
             "start+add+ready of a staging peer, add of a present peer, removal of an absent / other / own / leader / last peer, restart, "
